@@ -45,12 +45,12 @@ def main(repo, outdir):
             need(init, f"self.{k} = {k}", "__init__")
         fl = ast.unparse(get_source_func(path, "SklearnEKFAdapter._flatten_scoring_params"))
         need(fl, "arglist_control = sorted(list(self.symbolic_model.control), key=lambda x: x.name) flattened = list(self._flatten_dict_diagonal(self.process_noise, arglist_control)) "
-                 "for _key, mapping in sorted(list(self.sensor_noises.items())): arglist = sorted(list(mapping.keys())) flattened.extend(self._flatten_dict_diagonal(mapping, arglist)) return flattened", "_flatten_scoring_params")
+                 "for _key, mapping in sorted(list(self.sensor_noises.items())): arglist = sorted(list(mapping.keys()), key=str) flattened.extend(self._flatten_dict_diagonal(mapping, arglist)) return flattened", "_flatten_scoring_params")
         inv = ast.unparse(get_source_func(path, "SklearnEKFAdapter._inverse_flatten_scoring_params"))
         need(inv, "params = {k: getattr(self, k) for k in self.allowed_keys} controls, flattened = (flattened[:control_size], flattened[control_size:]) "
                   "params['process_noise'] = nearest_positive_definite(dict(self._inverse_flatten_dict_diagonal(controls, arglist_control))) "
                   "for key, mapping in sorted(list(self.sensor_noises.items())): sensor_size = len(mapping) sensor, flattened = (flattened[:sensor_size], flattened[sensor_size:]) "
-                  "arglist = sorted(list(mapping.keys())) params['sensor_noises'][key] = nearest_positive_definite(dict(self._inverse_flatten_dict_diagonal(sensor, arglist))) return params",
+                  "arglist = sorted(list(mapping.keys()), key=str) params['sensor_noises'][key] = nearest_positive_definite(dict(self._inverse_flatten_dict_diagonal(sensor, arglist))) return params",
              "_inverse_flatten_scoring_params")
         npd = ast.unparse(get_source_func(path, "nearest_positive_definite"))
         need(npd, "REWRITE_TOL = 1e-06", "nearest_positive_definite")
@@ -95,7 +95,7 @@ def main(repo, outdir):
         need(sc, "variance_score = (1.0 / var + var) / 2.0", "score")
         need(sc, "result = bias_weight * bias_score + variance_weight * variance_score + matrix_weight * matrix_score", "score")
         need(sc, "matrix_score = np.sum(np.square(list(self._flatten_dict_diagonal(self.process_noise, self.model_.arglist_control))))", "score")
-        need(sc, "for noise_mapping in self.sensor_noises.values(): arglist = sorted(list(noise_mapping.keys())) "
+        need(sc, "for noise_mapping in self.sensor_noises.values(): arglist = sorted(list(noise_mapping.keys()), key=str) "
                  "matrix_score += np.sum(np.square(list(self._flatten_dict_diagonal(noise_mapping, arglist))))", "score")
         ex = ast.unparse(get_source_func(path, "SklearnEKFAdapter.export_python"))
         need(ex, "return compile_ekf(self.symbolic_model, self.process_noise, self.sensor_models, self.sensor_noises, self.calibration_map, config=self.config)", "export_python")
